@@ -98,11 +98,11 @@ func genDesc(r *vf.Rand, i int) Desc {
 		d.Scans = 0
 	}
 	if i%8 == 5 {
-		// one transient loss of a shared task while many runs await it: the base is a
+		// four transient losses of a shared task while many runs await it: the base is a
 		// ReaderFunc whose first read fails with a temporary error, armed only in the
 		// concurrent phase; each run alone survives a single loss
 		d.Base = prog.Prog{Nodes: []prog.Node{{Op: "readerfunc", N: r.Range(1, 2), Types: []string{"i", "i"}, A: int64(r.Range(5, 60)), B: 1, N2: 2,
-			Fail: &prog.Fail{Mode: "temp", Shard: -1, Row: 1, Once: true}}}}
+			Fail: &prog.Fail{Mode: "temp", Shard: -1, Row: 1, Once: true, Times: 4}}}}
 		d.Discard = "before"
 		d.Scans = 0
 		d.Indep = nil
@@ -112,6 +112,10 @@ func genDesc(r *vf.Rand, i int) Desc {
 			d.Consumers = append(d.Consumers, prog.Prog{Nodes: []prog.Node{arg2, {Op: "filter", In: []int{0}, Exprs: []prog.Expr{{K: "true"}}}}})
 		}
 		d.Cfg = prog.Cfg{Kind: "local", Parallelism: 8}
+		// four consecutive transient losses stay below the limit of five when each loss
+		// is counted once, however many runs await the task
+		d.Procs = r.Pick([]int{2, 16})
+		d.Yield = false
 		return d
 	}
 	for j := 0; j < n; j++ {
@@ -270,7 +274,17 @@ func main() {
 			if d.Discard != "" {
 				res.Discard(ctx)
 			}
+			var gate chan struct{}
+			if d.Base.Nodes[0].Fail != nil {
+				// hold the failing attempt of the shared task until the other runs await it
+				gate = make(chan struct{})
+				prog.Gate.Store(gate)
+			}
 			close(start)
+			if gate != nil {
+				time.Sleep(300 * time.Millisecond) // detection power only: the verdict on a correct tree does not depend on it
+				close(gate)
+			}
 			if d.Discard == "during" {
 				// lose the shared tasks again while the runs are under way
 				for j := 0; j < 3; j++ {
